@@ -243,6 +243,8 @@ def _eval_both(model, zkind, rec, l, r):
             if other not in v.conc:
                 out.append(('sound', '%s: parameter stored without conciliation with its counterpart '
                                      '(its default would survive although the counterpart may be required)' % where))
+                out.append(('conc', '%s: parameter stored without conciliation with its counterpart '
+                                    '(default/annotation rules are bypassed)' % where))
             if v.default == 'set':
                 out.append(('unknown', 'default overridden'))
             if zkind == 'PO':
@@ -372,6 +374,8 @@ def _eval_own(model, zkind, rec, own, existing, missing):
                     if not any(c2[0] == 'N' for c2 in pv.conc):
                         out.append(('sound', '%s: the consumed parameter of the other side is not conciled '
                                              '(the result may be optional where that side requires it)' % where))
+                        out.append(('conc', '%s: the consumed parameter of the other side is not conciled '
+                                            '(default/annotation rules are bypassed)' % where))
                 else:
                     if not v:
                         out.append(('sound', '%s: stored although the %s input accepts no positional argument here' % (where, oth)))
@@ -384,6 +388,8 @@ def _eval_own(model, zkind, rec, own, existing, missing):
                         out.append(('sound', '%s: stored with kind %s but the %s input only takes it by keyword' % (where, K, oth)))
                     if not any(c2[0] == 'M' and c2[2] == 'pop' for c2 in pv.conc) and not any(c2[0] == 'S' for c2 in pv.conc):
                         out.append(('sound', '%s: not conciled with the %s input\'s keyword-only parameter of the same name' % (where, oth)))
+                        out.append(('conc', '%s: not conciled with the %s input\'s keyword-only parameter of the same name '
+                                            '(default/annotation rules are bypassed)' % (where, oth)))
                     if not [p for p in rec.limbo_pops if p[1] == oth]:
                         out.append(('sound', '%s: the matched keyword-only parameter stays in the unmatched set '
                                              '(it would be stored a second time or raise)' % where))
